@@ -64,6 +64,7 @@ def main():
 
     try:
         loader.install()
+        loader.load("osyris")  # import once in the parent; workers are forked from it
         mod = importlib.import_module("contracts.%s" % prop.lower())
     except Exception:
         traceback.print_exc()
